@@ -52,11 +52,11 @@ pub fn e6_campaigns(_tier: Tier) -> Vec<Box<dyn DynCampaign>> {
 pub fn plan(tier: Tier) -> Plan {
     let mut campaigns = e6_campaigns(tier);
     // E7 (event loop) campaigns are appended here
-    campaigns.extend(Vec::<Box<dyn DynCampaign>>::new());
+    campaigns.extend(crate::clientloop::props::c07_campaigns());
     Plan {
         campaigns,
-        enumerators: vec![],
-        rule: "E6: the C02 op alphabet with publishes and acknowledgements dominating, crossed with every inflight limit 1..=8 (campaign c07_small_limits, uniform over the limits) and with the limits 100 and 65535 (c07_large_limits; the id allocator is first advanced to just before the wrap by SUBSCRIBE requests), v4 and v5, v5 with CONNACK receive_max below and above the configured limit. Over the wire history (packets returned by the state machine): every QoS>0 PUBLISH, SUBSCRIBE, UNSUBSCRIBE id is non-zero and <= the configured limit; no fresh PUBLISH carries an id the model holds as unacknowledged (QoS 2: until PUBCOMP); the number unacknowledged after a fresh PUBLISH is <= the window; inflight() equals the model's count after every op; whenever a publish is parked in `collision` its id is held by an unacknowledged publish, and the final ack of that id returns the parked publish for the wire. A case is non-trivial when packet ids wrapped around and >= 1 collision occurred and was resolved. Distinct = distinct case hash.".into(),
+        enumerators: crate::clientloop::props::c07_enumerators(),
+        rule: "E6: the C02 op alphabet with publishes and acknowledgements dominating, crossed with every inflight limit 1..=8 (campaign c07_small_limits, uniform over the limits) and with the limits 100 and 65535 (c07_large_limits; the id allocator is first advanced to just before the wrap by SUBSCRIBE requests), v4 and v5, v5 with CONNACK receive_max below and above the configured limit. Over the wire history (packets returned by the state machine): every QoS>0 PUBLISH, SUBSCRIBE, UNSUBSCRIBE id is non-zero and <= the configured limit; no fresh PUBLISH carries an id the model holds as unacknowledged (QoS 2: until PUBCOMP); the number unacknowledged after a fresh PUBLISH is <= the window; inflight() equals the model's count after every op; whenever a publish is parked in `collision` its id is held by an unacknowledged publish, and the final ack of that id returns the parked publish for the wire. A case is non-trivial when packet ids wrapped around and >= 1 collision occurred and was resolved. Distinct = distinct case hash.".to_string() + crate::clientloop::props::C07_RULE,
         assumptions: vec![
             "User requests are fed to the state machine only when EventLoop::select() would feed them: inflight() < limit (v5: < min(limit, receive_max)) and no collision pending; otherwise the op is skipped and counted. The replay of `pending` after a resumed reconnect is fed unconditionally, as the event loop does.".into(),
             "A failure is modelled exactly as the event loop handles any error: clean(); pending kept iff the generated session_present; v5: CONNACK fed to the state machine; pending replayed in order before anything else. Requests still queued in the channel at failure time (finding K2) belong to the event-loop engine and are not generated here.".into(),
